@@ -33,7 +33,8 @@ REQUIRED = {"verdict.matches_model": {"quick": 1500, "thorough": 100000}, "verdi
 REQUIRED_SEEN = {"only_cause": ["failed_scenario", "aborted", "aborted_without_failed_scenario", "hook_failure", "cleanup_failure",
                                 "undefined_dry_run"],
                  "verdict": ["failed", "success"], "file_filter": ["include+exclude:file_matching_both"],
-                 "nested_sub_step_outcome": ["fail", "error", "pending", "undefined", "pass"], "tag_name_class": ["contains_operator_word"]}
+                 "nested_sub_step_outcome": ["fail", "error", "pending", "undefined", "pass"], "tag_name_class": ["contains_operator_word"],
+                 "raising_cleanup_registered_as": ["own_function", "same_function_other_arguments"]}
 NSHARDS = {"quick": 16, "thorough": 16}
 NONTRIVIAL = "see RULE"
 
@@ -163,8 +164,21 @@ def run_cleanup_fault(lab, mon, case, obs0, pred, rng, n):
         k = rng.randrange(nh)
         ran = []
 
-        def plug(state, context, name, elem, tag, k=k, ran=ran):
+        style = rng.choice(["own_function", "own_function", "same_function_other_arguments"])
+
+        def plug(state, context, name, elem, tag, k=k, ran=ran, style=style):
             if state.hook_count - 1 == k:
+                if style == "same_function_other_arguments":
+                    # one clean-up function registered twice with different arguments (release("a"), release("b")): two
+                    # cleanups -- the second one is the one that raises
+                    def release(which):
+                        if which == "b":
+                            ran.append(1)
+                            raise RuntimeError("injected cleanup failure in release(%r)" % which)
+                    context.add_cleanup(release, "a")
+                    context.add_cleanup(release, "b")
+                    return
+
                 def bad_cleanup():
                     ran.append(1)
                     raise RuntimeError("injected cleanup failure")
@@ -175,7 +189,12 @@ def run_cleanup_fault(lab, mon, case, obs0, pred, rng, n):
         mon.check("fault.no_exception_escapes", obs.escaped is None, lambda: RB.witness(c2, escaped=repr(obs.escaped)))
         if obs.escaped is not None:
             continue
-        if ran:
+        mon.seen("raising_cleanup_registered_as", style)
+        if style == "same_function_other_arguments":
+            mon.check("fault.cleanup_makes_run_fail", bool(ran) and bool(obs.verdict) is True,
+                      lambda: RB.witness(c2, registered="release('a'), release('b') -- release('b') raises", raising_call_ran=len(ran),
+                                         verdict=obs.verdict, statuses=obs.elem_status))
+        elif ran:
             mon.check("fault.cleanup_makes_run_fail", bool(obs.verdict) is True,
                       lambda: RB.witness(c2, statuses=obs.elem_status))
             mon.check("fault.cleanup_runs_once", len(ran) == 1, lambda: RB.witness(c2, ran=len(ran)))
